@@ -358,13 +358,18 @@ func (c *Collection) itemSlice(readConfig *ReadRequest) []idItem {
 }
 
 func (c *Collection) genID() (string, error) {
-	return GenerateUniqueId(c.rng, func(candidate string) bool {
+	id, err := GenerateUniqueId(c.rng, func(candidate string) bool {
 		if c.idInterceptor != nil {
 			candidate = c.idInterceptor(candidate)
 		}
 		_, exists := c.byId[candidate]
 		return exists
 	})
+	if err == nil && c.idInterceptor != nil {
+		// store the item under the same id that was checked for uniqueness, and that Get/Update/Delete will look for
+		id = c.idInterceptor(id)
+	}
+	return id, err
 }
 
 type item struct {
